@@ -503,6 +503,18 @@ func c10Drive(t *testing.T, o *vk.Out, m *vk.Meta, monitor func(*vk.Meta, c10In,
 			add(in, run(in))
 		}
 	}
+	// a cascade replica that fell back to the master while its configured source was away; the source is back, healthy,
+	// replicating with a small lag - and still behind the cascade replica (or level with it): always
+	for _, srcExec := range []string{"1-50", "1-99", "1-100"} {
+		for _, mgr := range []int{0, 3} {
+			in := c10In{Passes: 2, Gap: 5, MaxAttempts: 3, Mgr: mgr,
+				Nodes: []c10Node{{RO: false, Source: "", Threads: "", SemiSync: "none", Exec: "1-100"},
+					{RO: true, Source: "h1", Threads: "running", SemiSync: "none", Exec: srcExec, Lag: 2},
+					{RO: true, Source: "h1", Threads: "running", SemiSync: "none", Exec: "1-100"},
+					{RO: true, Source: "h1", Threads: "running", SemiSync: "none", Exec: "1-100", Cascade: "h2"}}}
+			add(in, run(in))
+		}
+	}
 	// membership changes between passes, always: a host (also the manager's own) leaves the registry while it still
 	// needs repair - from then on it must not be touched
 	for _, mgr := range []int{0, 2, 3} {
